@@ -874,11 +874,13 @@ def check_C16(ctx):
                 "the fact set.  One REPLAY line per order.  The harness issues the calls in that order, in canonical and in reversed order, through the Builder, through binary v3/v2 files whose "
                 "records and id lists follow those orders or a random permutation, and through text files with permuted stanzas and rows; every ontology must equal the specification's projection and "
                 "all must be observationally identical (whole read API; iteration order excluded).  Beyond TLC's sizes: random fact sets of 40-90 terms (multi-parent DAGs, obsolete flags, 30-120 facts) and, every third one, DEEP sets of 150-260 terms with a backbone chain through all of them, "
+                "and one fact set of more than 66,000 terms (two supply orders, Builder) "
                 "under 4 orders (canonical, reversed, 2 random) x Builder / binary / text, compared pairwise; non-trivial = at least two links or facts to permute")
     out = tlc(ctx, "mc/MC_Order.cfg" if ctx.quick else "mc/MC_OrderThorough.cfg", "mc/MC_Order.tla", workers=14, timeout=3000)["out"]
     s = hv(ctx, "replay-order", prop="C16", big=(32 if ctx.quick else 400), stride=(1 if ctx.quick else 1), all_concs=(0 if ctx.quick else 1), **{"in": out})
     ctx.traces += s.get("cases", 0)
     ctx.extra["big_fact_sets"] = s.get("counters", {}).get("big_fact_sets", 0)
+    ctx.extra["huge_fact_sets"] = s.get("counters", {}).get("huge_fact_sets", 0)
     ctx.assumptions += ["one name per record id and one replacement per term, as the property states; the Builder API cannot set obsolete flags, so flagged terms are permuted on the binary and text paths only"]
     return finish(ctx)
 
